@@ -190,7 +190,8 @@ type Engine struct {
 	// ClientSaved: per open document, the text the editor last opened or saved (what the editor
 	// itself regards as the saved state, whatever the world did to the disk since)
 	ClientSaved  map[string]string
-	folders      []string // current workspace folders once a folders op has been applied
+	folders      []string       // current workspace folders once a folders op has been applied
+	completions  map[int]string // op index of an answered completion request -> raw result
 	version      map[string]int
 	events       []pendingEvt
 	budget       int
@@ -319,6 +320,13 @@ func (e *Engine) drain() {
 			if e.hooks.KeepRaw {
 				a.Raw = string(m.Result)
 			}
+			if a.Method == "textDocument/completion" {
+				// what a later completionItem/resolve picks its item from (Arg names the op)
+				if e.completions == nil {
+					e.completions = map[int]string{}
+				}
+				e.completions[a.Op] = string(m.Result)
+			}
 		case m.Method != "":
 			// other server->client notifications (progress) are ignored
 		}
@@ -425,6 +433,20 @@ func (e *Engine) buildReq(op *Op) (string, interface{}) {
 		return method, map[string]interface{}{"query": op.Arg}
 	case "varColor":
 		return method, map[string]interface{}{"uri": URI(op.Path)}
+	case "resolve":
+		// the client resolves item N of the completion list it received in answer to op #Arg
+		src, _ := strconv.Atoi(op.Arg)
+		if raw := e.completions[src]; raw != "" {
+			var list struct {
+				Items []json.RawMessage `json:"items"`
+			}
+			if json.Unmarshal([]byte(raw), &list) == nil && len(list.Items) > 0 {
+				var item interface{}
+				json.Unmarshal(list.Items[op.N%len(list.Items)], &item)
+				return method, item
+			}
+		}
+		return method, map[string]interface{}{"label": "none", "data": 0}
 	case "online":
 		return method, map[string]interface{}{"Req": 1}
 	case "shutdown":
